@@ -94,6 +94,10 @@ def source(rng, xr, exact=False):
         x = x.assign_coords(dir=np.round(x.dir.values).astype("int64"))
     else:
         cd = "float64" if cd == "intdir" else cd
+    if rng.random() < 0.1 and float(np.nanmax(x.values)) > 0:
+        # spectra stored as integers (counts, unscaled packed values): interpolated values are not whole numbers
+        q_ = float(np.nanmax(x.values)) / float(rng.choice([40.0, 300.0, 3000.0]))
+        x = x.copy(data=np.rint(x.values / q_).astype(str(rng.choice(["int32", "int64"]))))
     x.attrs["_coord_dtype"] = cd
     return x, stored, lnames
 
